@@ -296,6 +296,9 @@ func vxOsRemove(path string) error {
 	return nil
 }
 
+// vxOsIsNotExist models os.IsNotExist for the errors of this file system.
+func vxOsIsNotExist(err error) bool { return err == vxErrNotExist }
+
 func vxOsFileStat(f *os.File) (os.FileInfo, error) {
 	fd := vxTheFS.byOS[f]
 	if fd == nil {
